@@ -2361,6 +2361,16 @@ impl<T: Storage> Raft<T> {
                 {
                     return Ok(());
                 }
+                // A granted pre-vote carries the term it was asked for, which is our term + 1.
+                // A grant with any other term answers an earlier pre-campaign (a delayed or
+                // duplicated response from a term we have since left behind) and must not be
+                // counted towards this one.
+                if self.state == StateRole::PreCandidate
+                    && !m.reject
+                    && self.term.checked_add(1) != Some(m.term)
+                {
+                    return Ok(());
+                }
 
                 self.poll(m.from, m.get_msg_type(), !m.reject);
                 self.maybe_commit_by_vote(&m);
